@@ -62,6 +62,36 @@ def cases(draw):
             # the plainest search of all: the listing of one level ("everything below this parent")
             segs = m.render(t, f).split("/")
             searches.append({"s": "/".join(segs[:-1] + ["*"]), "labels": ["level-listing"]})
+        elif _ == 1 and [k for k in m.keys(t) if m.specs[(t, k)].free]:
+            # a pattern with a literal END on a free value ('*x' where 'x' and 'x_y' may both exist), later levels partly open:
+            # a glob can split a joined file name at another place than the template does
+            keys = m.keys(t)
+            k = draw(st.sampled_from([kk for kk in keys if m.specs[(t, kk)].free]))
+            v = f[k]
+            if draw(st.booleans()):
+                # make sure the ambiguous sibling exists: same entity, free value extended by the file-name separator
+                sib = dict(f)
+                sib[k] = v + draw(st.sampled_from(["_y", "_x", "_w"]))
+                if (t, sib) not in ents:
+                    ents.append((t, sib))
+            g = dict(f)
+            g[k] = draw(st.sampled_from(["*" + v, "*" + v[-1:], v[:1] + "*" + v[-1:], "*" + v[-2:]]))
+            for kk in keys[2:]:   # (file names join the fields in another order than the Sid does)
+                if kk != k and draw(st.integers(0, 2)) == 0:
+                    g[kk] = "*"
+            searches.append({"s": m.render(t, g), "labels": ["free-value-pattern-with-literal-end"]})
+        elif _ == 2 and [i for i, k in enumerate(m.keys(t)) if i >= 3 and m.specs[(t, k)].free]:
+            # a literal free value below a searched level, while a sibling exists whose value is that value extended at the
+            # FRONT ('x' and 'y_x'): where a folder or file name joins the two levels, a glob matches both
+            keys = m.keys(t)
+            i = draw(st.sampled_from([i for i, k in enumerate(keys) if i >= 3 and m.specs[(t, k)].free]))
+            sib = dict(f)
+            sib[keys[i]] = draw(st.sampled_from(["y", "w", "x1"])) + draw(st.sampled_from(["_", "_", "-", "--", "."])) + f[keys[i]]
+            if (t, sib) not in ents:
+                ents.append((t, sib))
+            g = dict(f)
+            g[keys[i - 1]] = "*"
+            searches.append({"s": m.render(t, g), "labels": ["star-above-literal-free-value"]})
         elif draw(st.integers(0, 9)) < 3:
             searches.append(draw(gens.gt_search(m, t, f)))
         else:
